@@ -74,7 +74,8 @@ pub fn flush() {
 	});
 }
 
-/// Called by the engines before the workers of a leg start: the bytes live at that moment (work lists, tables built by
+/// Called by the enumeration engine (not by the schedule explorer, whose scenarios follow each other by the hundred and
+/// would ratchet the baseline up with the very backlog the back-pressure exists for) before the workers of a leg start: the bytes live at that moment (work lists, tables built by
 /// the check) are the leg's baseline, and back-pressure looks at the growth above it only. Without this, a check whose
 /// own work list exceeds `HIGH` would pause every worker for the full 20 s on every chunk.
 pub fn leg_starts() {
@@ -82,6 +83,17 @@ pub fn leg_starts() {
 		return;
 	}
 	flush();
+	// whatever the timer helper thread still has to release from the previous leg is backlog, not baseline: wait until
+	// the live total has stopped falling (it drains within a fraction of a second once no worker runs)
+	let t0 = std::time::Instant::now();
+	loop {
+		let a = LIVE.load(Ordering::Relaxed);
+		std::thread::sleep(std::time::Duration::from_millis(40));
+		let b = LIVE.load(Ordering::Relaxed);
+		if a - b < STEP || t0.elapsed() > std::time::Duration::from_secs(10) {
+			break;
+		}
+	}
 	BASELINE.store(LIVE.load(Ordering::Relaxed).max(0), Ordering::Relaxed);
 }
 
